@@ -173,6 +173,12 @@ def check_build_outcome(rep: Report, prog: Program) -> None:
                 rep.ok("R11.2")
     rep.floor("R11.2", 6)
     # _abort_outcome / build_* wrappers pass their arguments through
+    bo_defaults = {k: ("const", d.value) for k, d in prog.func(f"{HELPERS}:_build_outcome").param_defaults().items() if isinstance(d, ast.Constant)}
+
+    def with_defaults(kws: dict) -> dict:
+        # an argument spelled out with the callee's own default is the same call
+        return {**bo_defaults, **kws}
+
     for q, kw in (
         (f"{HELPERS}:_abort_outcome", {"ok": ("const", False), "value": ("const", None), "state": ("param", "state"), "attempts": ("param", "attempts"), "timeline": ("param", "timeline")}),
         (f"{LOGIC}:build_exhausted_outcome", {"ok": ("const", False), "value": ("const", None), "state": ("param", "state"), "attempts": ("param", "attempts"), "timeline": ("param", "timeline")}),
@@ -184,7 +190,7 @@ def check_build_outcome(rep: Report, prog: Program) -> None:
         for p in engine(prog).paths(f2):
             calls = [e for e in p.calls() if e.is_repo(":_build_outcome")]
             rep.instance("R11.2", f"{q.split(':')[1]}|{len(calls)}")
-            if len(calls) == 1 and calls[0].kwargs == kw and p.exit == ("return", calls[0].result):
+            if len(calls) == 1 and with_defaults(calls[0].kwargs) == with_defaults(kw) and p.exit == ("return", calls[0].result):
                 rep.ok("R11.2")
             else:
                 rep.fail("R11.2", f"{q.split(':')[1]}|passthrough", f"{q}: expected return _build_outcome({', '.join(k + '=' + show(v) for k, v in kw.items())}); found {[(k, show(v)) for c in calls for k, v in c.kwargs.items()]}", where=f2.where(), function=q)
